@@ -98,6 +98,12 @@ impl Ctx {
         let pref_sig: Option<&Signature> = if sh.ver == KeyVersion::V6 { key.details.direct_signatures.first() } else { key.details.users.first().and_then(|u| u.signatures.first()) };
         if let Some(s) = pref_sig {
             facts.push(("primary flags certify+sign", s.key_flags().certify() && s.key_flags().sign() && !s.key_flags().encrypt_comms()));
+            {
+                use pgp::ser::Serialize;
+                let fb = s.key_flags().to_bytes().unwrap_or_default();
+                self.out.case("flags", &["1".into(), "1".into(), "none".into(), "0".into()], &["flags".into(), sh.pname.into(), seed.to_string(), "primary".into()],
+                    &fb.first().map(|b| b.to_string()).unwrap_or("none".into()), Some(fb.iter().skip(1).all(|b| *b == 0)), "primary-flags-octet");
+            }
             facts.push(("symmetric preferences", s.preferred_symmetric_algs() == &sym_pref[..]));
             facts.push(("hash preferences", s.preferred_hash_algs() == &hash_pref[..]));
             facts.push(("compression preferences", s.preferred_compression_algs() == &comp_pref[..]));
@@ -106,6 +112,15 @@ impl Ctx {
         for (i, (sub, spec)) in key.secret_subkeys.iter().zip(sh.subs.iter()).enumerate() {
             let Some(b) = sub.signatures.first() else { facts.push(("subkey binding present", false)); continue; };
             let f = b.key_flags();
+            // the flags octet against the model's function of the request
+            {
+                use pgp::ser::Serialize;
+                let fb = f.to_bytes().unwrap_or_default();
+                let enc = if spec.1 { "none" } else { match caps_of(sh, i) { EncryptionCaps::Communication => "comm", EncryptionCaps::Storage => "stor", _ => "all" } };
+                let rest_zero = fb.iter().skip(1).all(|b| *b == 0);
+                self.out.case("flags", &["0".into(), (spec.1 as u8).to_string(), enc.into(), "0".into()], &["flags".into(), sh.pname.into(), seed.to_string(), i.to_string()],
+                    &fb.first().map(|b| b.to_string()).unwrap_or("none".into()), Some(rest_zero), "subkey-flags-octet");
+            }
             if spec.1 { facts.push(("signing subkey flags", f.sign() && !f.encrypt_comms())); facts.push(("signing subkey has back signature", b.embedded_signature().is_some())); }
             else {
                 let (wc, ws) = match caps_of(sh, i) { EncryptionCaps::Communication => (true, false), EncryptionCaps::Storage => (false, true), _ => (true, true) };
